@@ -389,9 +389,9 @@ func iposEsc(c *Ctx, e *flow.Escape) string {
 
 // ---------------------------------------------------------------- R-release-on-close
 func c08Release(c *Ctx) {
-	tr := c.P.RootNamed("transport")
+	tr := c.transportIface()
 	if tr == nil {
-		c.R.Break("anchor not found: transport interface")
+		c.R.Break("anchor not found: the clients' transport interface (by shape)")
 		return
 	}
 	resourceType := func(t types.Type) bool {
@@ -403,7 +403,7 @@ func c08Release(c *Ctx) {
 	}
 	n := 0
 	for _, T := range c.P.Implementers(tr.Underlying().(*types.Interface)) {
-		cl := c.P.Method(T, "close")
+		cl := c.P.Method(T, c.transportCloseMethod(tr))
 		if cl == nil {
 			c.R.Violate("R-release-on-close", ir.TypeKey(T)+": close", c.Pos(T.Obj().Pos()), "transport has no close method")
 			continue
